@@ -76,7 +76,7 @@ func main() {
 		rc.workers = 2
 	}
 	// generous timeouts: obligations that hold discharge in seconds; only failing ones wait this long
-	rc.timeoutS = 30
+	rc.timeoutS = 45
 	if *tier == "thorough" {
 		rc.timeoutS = 120
 	}
